@@ -91,6 +91,13 @@ pub(crate) struct Start<Receiver: StartReceiver + Send> {
     /// The next time `next()` is called it will not wait the timeout asked by the batch mode.
     already_timed_out: bool,
 
+    /// The frontier advanced because a previous replica ended its iteration: the new value is
+    /// emitted before the next element, unless a newer watermark replaces it first.
+    #[cfg(feature = "timestamp")]
+    pending_watermark: Option<Timestamp>,
+    /// The element held back while `pending_watermark` is being emitted.
+    held_item: Option<StreamElement<Receiver::Out>>,
+
     /// The current frontier of the watermarks from the previous replicas.
     watermark_frontier: WatermarkFrontier,
 
@@ -112,6 +119,9 @@ impl<Receiver: StartReceiver + Send> Clone for Start<Receiver> {
             missing_flush_and_restart: self.missing_flush_and_restart,
             num_previous_replicas: self.num_previous_replicas,
             already_timed_out: self.already_timed_out,
+            #[cfg(feature = "timestamp")]
+            pending_watermark: None,
+            held_item: None,
             watermark_frontier: self.watermark_frontier.clone(),
             wait_for_state: self.wait_for_state,
             state_lock: self.state_lock.clone(),
@@ -171,6 +181,9 @@ impl<Receiver: StartReceiver + Send> Start<Receiver> {
             num_previous_replicas: 0,
 
             already_timed_out: Default::default(),
+            #[cfg(feature = "timestamp")]
+            pending_watermark: None,
+            held_item: None,
 
             watermark_frontier: Default::default(),
 
@@ -214,6 +227,10 @@ where
         let coord = self.coord.unwrap();
 
         loop {
+            // the watermark that preceded this element has been emitted by the previous call
+            if let Some(item) = self.held_item.take() {
+                return item;
+            }
             // all the previous blocks sent an end: we're done
             if self.missing_terminate == 0 {
                 log::trace!("{} ended", coord);
@@ -224,6 +241,10 @@ where
 
                 self.missing_flush_and_restart = self.num_previous_replicas;
                 self.watermark_frontier.reset();
+                #[cfg(feature = "timestamp")]
+                {
+                    self.pending_watermark = None;
+                }
                 // this iteration has ended, before starting the next one wait for the state update
                 self.wait_for_state = true;
                 self.state_generation += 2;
@@ -242,7 +263,14 @@ where
                             StreamElement::Watermark(ts) => {
                                 // update the frontier and return a watermark if necessary
                                 match self.watermark_frontier.update(sender, ts) {
-                                    Some(ts) => StreamElement::Watermark(ts), // ts is safe
+                                    Some(ts) => {
+                                        // newer than any pending one
+                                        #[cfg(feature = "timestamp")]
+                                        {
+                                            self.pending_watermark = None;
+                                        }
+                                        StreamElement::Watermark(ts) // ts is safe
+                                    }
                                     None => continue,
                                 }
                             }
@@ -250,7 +278,13 @@ where
                                 // mark this replica as ended and let the frontier ignore it from now on
                                 #[cfg(feature = "timestamp")]
                                 {
-                                    self.watermark_frontier.update(sender, Timestamp::MAX);
+                                    // the replicas still active may be ahead of the one that
+                                    // ended: the frontier advances, let the operators know before
+                                    // the next element
+                                    match self.watermark_frontier.update(sender, Timestamp::MAX) {
+                                        Some(Timestamp::MAX) | None => {}
+                                        Some(ts) => self.pending_watermark = Some(ts),
+                                    }
                                 }
                                 self.missing_flush_and_restart -= 1;
                                 continue;
@@ -264,7 +298,17 @@ where
                                 );
                                 continue;
                             }
-                            _ => item,
+                            _ => {
+                                #[cfg(feature = "timestamp")]
+                                let item = match self.pending_watermark.take() {
+                                    Some(ts) => {
+                                        self.held_item = Some(item);
+                                        StreamElement::Watermark(ts)
+                                    }
+                                    None => item,
+                                };
+                                item
+                            }
                         }
                     }
                 };
